@@ -6,7 +6,7 @@
    key-sorted partitions (db_wf) and every operation sequence. *)
 From Coq Require Import List NArith Bool.
 Import ListNotations.
-Require Import RV.Model.C12_Track RV.Model.C12_View RV.Proof.C12_Drain RV.Proof.C12_Main RV.Proof.C12_Ops RV.Proof.C12_Track RV.Proof.C12_Updates.
+Require Import RV.Model.C12_Track RV.Model.C12_View RV.Proof.C12_Drain RV.Proof.C12_Main RV.Proof.C12_Ops RV.Proof.C12_Track RV.Proof.C12_Updates RV.Proof.C12_Commit RV.Proof.C12_Create.
 Open Scope N_scope.
 
 (* every run of every operation sequence conforms to the view specification: reads and removes return
@@ -58,6 +58,22 @@ Theorem C12_state_updates_deleted : forall db t s n p k, db_wf db -> reach db t 
   /\ forall v, apply_su (snd (to_state_updates t)) db n p k = Some v -> al_get k (v_view s n p) = Some v.
 Proof. exact state_updates_deleted. Qed.
 
+(* get_commit_info (the store-commit costing input) lists exactly one entry per tracked substate whose
+   emitted update differs in kind from the database: Insert iff a Set over nothing, Update iff a Set
+   over an existing value (with both sizes), Delete iff a Delete of an existing value; a Delete of
+   nothing and read-only / garbage entries are not listed *)
+Theorem C12_commit_info_exact : forall db t s c, db_wf db -> reach db t s ->
+  (In c (get_commit_info db t) <->
+   exists n p k tv, tlookup (t_nodes t) n p k = Some tv /\
+                    commit_expected n p k (tsv_update tv) (al_get k (db n p)) = Some c).
+Proof. exact commit_info_exact. Qed.
+
+(* create_node's assert!(old_tracked.is_none()) fires exactly when some partition of the input
+   repeats a (db sort) key: impossible for a BTreeMap input under an injective key mapper (C16) *)
+Theorem C12_create_node_panics_iff : forall t n l,
+  create_node t n l = None <-> exists p subs, In (p, subs) l /\ ~ NoDup (map fst subs).
+Proof. exact create_node_panics_iff. Qed.
+
 (* force_write panics exactly when the substate has no tracked entry (it was never loaded) *)
 Theorem C12_force_write_panics_iff : forall t n p k,
   force_write t n p k = None <-> tlookup (t_nodes t) n p k = None.
@@ -100,6 +116,8 @@ Print Assumptions C12_drain.
 Print Assumptions C12_scan_sorted.
 Print Assumptions C12_state_updates_exact.
 Print Assumptions C12_state_updates_deleted.
+Print Assumptions C12_commit_info_exact.
+Print Assumptions C12_create_node_panics_iff.
 Print Assumptions C12_force_write_panics_iff.
 Print Assumptions C12_revert.
 Print Assumptions C12_read_after_revert_refuted.
